@@ -22,3 +22,9 @@ mod c14;
 mod expr;
 #[cfg(kani)]
 mod c20;
+#[cfg(kani)]
+mod c10;
+#[cfg(kani)]
+mod c17;
+#[cfg(kani)]
+mod c18;
